@@ -45,9 +45,9 @@ CLAIM = dict(
     "RNG STATE at run time (snapshot oracle; the table only shows the absence of np.random calls in the covered sources), "
     "values of arrays computed by numpy / cv2 / skimage (parameters of the model), dtype promotion of arithmetic, the ~100 "
     "registry call forms x random images with argument snapshots, chains and later writes on every result. Call forms or "
-    "program statements that raise in most of their cases are reported as marks (not counted as passing). Not proved: "
-    "preservation of WF / Typed by step (chain theorems protect objects of the initial heap via reachability; results "
-    "created mid-chain are protected by the frame statement only).",
+    "program statements that raise in most of their cases are reported as marks (not counted as passing). WF and Typed are "
+    "preserved by every modelled call (step_preserves_wf_typed), so chain_preserves_intermediate gives the full reachability "
+    "statement also for results created mid-chain and reused as arguments.",
     note="frame theorems are definitional for the model; the load-bearing evidence is the generated source write-set table, the "
     "identity-tracking correspondence and the snapshot oracle; sharing / later-write / stack theorems are genuine",
     technique="Lean 4 proof (heap model; freshness and reachability invariants; induction over chains and over the list passed to "
